@@ -31,13 +31,7 @@ static bool g_mark = false;
 
 static void flushSummary()
 {
-   Sink& S = sink();
-   S.finish();
-   S.counters.clear();
-   S.maxima.clear();
-   S.distinct.clear();
-   S.samples.clear();
-   S.nviol = 0;
+   sink().flushSummary();       // "partial" record: what was observed so far survives a later death of this worker
 }
 
 static void reexec(long long from, long long retry)
@@ -90,8 +84,13 @@ static void onTimeout()
           " | " + g_curDesc, g_curReplay);
    S.count("cases");
    S.end(g_curCase);
+   if(g_curCase + 1 >= cli.to)
+   {
+      S.finish();
+      fflush(stdout);
+      _exit(0);
+   }
    flushSummary();
-   if(g_curCase + 1 >= cli.to) _exit(0);
    reexec(g_curCase + 1, -1);
 }
 
@@ -179,9 +178,12 @@ static std::vector<std::pair<std::string, std::string>> leakCheck()
 #endif
 
 // ---------------------------------------------------------------- one case
-static void execCase(long long k, const std::string& sub, const CaseIn& in, const std::string& cat, const std::string& label)
+static void execCase(long long k, const std::string& sub, const CaseIn& in0, const std::string& cat, const std::string& label)
 {
    Sink& S = sink();
+   CaseIn in = in0;
+   in.entry = effectiveEntry(in0);       // readFile() picks the LP or the MPS reader from the first byte: name the reader that really runs
+   if(in.entry != in0.entry) S.count("routed.to-other-reader");
    g_curCase = k;
    g_curDesc = sub + ":" + entryName[in.entry] + ":" + cat;
    S.begin(k, g_curDesc);
@@ -225,7 +227,7 @@ static void execCase(long long k, const std::string& sub, const CaseIn& in, cons
       leakCheck();       // absorb what the unwinding left behind so that it is not charged to the next case
    }
 #endif
-   if(k % 97 == 0) S.sample(Json().str("sub", sub).str("entry", entryName[in.entry]).str("category", cat).str("what", label).num("bytes", (long long)in.bytes.size()).boolean("ok", out.ok).done());
+   if(k % 97 == 0 || k == cli.from) S.sample(Json().str("sub", sub).str("entry", entryName[in.entry]).str("category", cat).str("what", label).num("bytes", (long long)in.bytes.size()).boolean("ok", out.ok).done());
    S.end(k);
    flushSummary();
 }
@@ -266,6 +268,7 @@ int main(int argc, char** argv)
    }
    Sink& S = sink();
    S.prop = cli.prop;
+   S.leakEvery = 0;      // leaks are attributed below (growth of LSan's per-allocation-site totals, keyed by entry point), not by Sink::end()
    if(cli.prop != "C13")
    {
       fprintf(stderr, "h_read: unknown property %s\n", cli.prop.c_str());
@@ -276,26 +279,6 @@ int main(int argc, char** argv)
    ViolCtx::hook();
    initCtx(cli.tmpdir);
    std::string sub = cli.sub.empty() ? "enum" : cli.sub;
-#if C13_ASAN
-   if(sub != "dumpseeds")
-   {
-      // warm-up: one good read per reader so that one-time allocations (locale, iostream, boost caches) are not charged to case 1
-      std::function<void(const std::string&, const std::string&)> sv = H.viol;
-      H.viol = [](const std::string&, const std::string&) {};
-      for(int e = 0; e < NENTRY; e++)
-      {
-         CaseIn in;
-         in.entry = e;
-         in.bytes = e <= LP_RAT ? joinS(handLPSections()) : e <= MPS_RAT ? joinS(handMPSSections()) : e == BASIS ? std::string("NAME b\nENDATA\n") : std::string("int:iterlimit = 5\n");
-         CaseOut out;
-         runCase(in, out);
-      }
-      H.viol = sv;
-      leakCheck();
-      S.counters.clear();
-      S.maxima.clear();
-   }
-#endif
    if(sub == "dumpseeds")
    {
       buildPool();
@@ -396,7 +379,7 @@ int main(int argc, char** argv)
    // anything leaked outside the per-case attribution (there should be nothing)
    for(auto& g : leakCheck()) S.viol("C13:leak:unattributed:" + g.first, g.second);
 #endif
-   flushSummary();
+   S.finish();
    fflush(stdout);
    _exit(0);      // leaks were attributed per case above; skip LSan's at-exit pass, which would only repeat them
 }
